@@ -272,6 +272,13 @@ def explore(rep, tier, exe, n_fixed, n_seeded):
     cases += gen_cases(random.Random("c07-fixed-stream-v1"), seeds, n_fixed, ALL_KINDS, "f")
     # 2. seeded stream
     cases += gen_cases(C.rng("c07"), seeds, n_seeded, SEEDED_KINDS, "s")
+    # inputs recorded with a known finding: any unclean outcome on exactly that input is that finding
+    # (crash sites of memory-corruption faults are not stable from run to run; the input is)
+    corpus_by_hash = {}
+    if os.path.isdir(cdir):
+        for f in sorted(os.listdir(cdir)):
+            if f.endswith(".as"):
+                corpus_by_hash[hashlib.sha1(open(cdir + "/" + f, "rb").read()).hexdigest()] = f
     stats, kinds, fk = {}, {}, {}
     sigs = {}
     samples = []
@@ -303,6 +310,9 @@ def explore(rep, tier, exe, n_fixed, n_seeded):
                 sig = cl + ":" + (re.sub(r"\d+", "N", last[-1].strip())[:60] if last else "")
             else:
                 sig = cl
+            cf = corpus_by_hash.get(hashlib.sha1(data).hexdigest())
+            if cf:
+                sig = "input:" + cf
             sigs.setdefault(sig, []).append(i)
             if len(sigs[sig]) == 1:
                 h = hashlib.sha1(data).hexdigest()[:12]
